@@ -38,6 +38,16 @@ CHECKS = {
   note="Trusted: go/ssa, the must-held lock analysis (lock identity by access path), the per-type tables in engines/c01.go. UnmarshalJSON is exempt from the lockset (restores an unshared object).",
   tech="static analysis: lockset (must-held locks, interprocedural helper rule), dominance-based check-then-act and witness rules, must-pass-through pairing on go/ssa",
   ref="DESIGN.md §2 C01, §1.3 E6"),
+ "C05": dict(
+  text="Structural clauses of 'pools neither leak nor miscount' on the pool implementations: the bitmap allocator's counter changes exactly where a bit flips under a clear/set witness (both directions, every path); list pools compute their statistics from len() of the live structures and keep no separate usage counter; a release appends to the free list exactly the value it removed from the owner map, in the same region and only when the key was found; an in-memory acquire followed by a failing store write is released on that path (path-sensitive dataflow), a release removes the store record before freeing memory, and both halves run under one hold of the allocator's lock; lease tables that stamp an expiry have a reader reachable from Start. The 2-bit generation wrap, grace arithmetic and float utilisation are numeric and not decided.",
+  note="Trusted: go/ssa, math/big semantics of SetBit/Bit/Add/Sub, the per-type tables. DHCPv6 leases have no expiry reader (known finding).",
+  tech="static analysis: dominance witnesses, must-pass-through pairing, path-sensitive rollback dataflow and lock-hold analysis on go/ssa",
+  ref="DESIGN.md §2 C05, §1.3 E6"),
+ "C12": dict(
+  text="Structural clauses of 'allocations survive restart and replication unchanged': provenance (on reload and on a remote announcement every allocator-mutating call takes the prefix parsed from the record), examined results of applying announcements, store/memory ordering, rollback and single critical section for allocate/release, identical MarshalJSON/UnmarshalJSON field sets and restoration of every field the query methods read, eviction of the reverse index when a record moves. Enumeration-order effects beyond the provenance rule and crash points are not decided.",
+  note="Trusted: go/ssa, encoding/json struct-tag semantics. Lease-mode reload/remote-apply ignore the recorded address and one apply error is discarded (3 known findings).",
+  tech="static analysis: value-provenance (def-use) rules, error-discipline, path-sensitive rollback dataflow, type-level comparison of serialisation structs on go/ssa + go/types",
+  ref="DESIGN.md §2 C12"),
 }
 NA = {}
 def main():
